@@ -161,6 +161,7 @@ pub fn c28(out: &mut Out, ex: &mut Exec, seed: u64, thorough: bool) {
                 1 => format!("sim hostwrite {} {} ffff 1 0 0 0", hex16(baddr(&mut rng)), hex16(rng.u16())),
                 2 => format!("sim hostread {} 1 0 0 1", hex16(baddr(&mut rng))),
                 3 => format!("sim run {}", 1 + rng.below(6)),
+                4 if rng.chance(1, 3) => "sim run 0".to_string(), // a run of zero steps still starts a new observation
                 _ => "sim step".to_string(),
             };
             let r = ex.line(&l); out.op(&l, &r); all.push(l.clone()); out.evaluations += 1;
